@@ -67,6 +67,12 @@ impl BitVec {
                 forall|j: int| self.bit(j) == (old(self).bit(j) || (start < end && start <= j < i)),
 //@ end
 
+//@ item sim/elvis-core/src/protocols/ipv4/reassembly/bitvec.rs :: impl BitVec / fn range_complete id=BitVec.range_complete
+//@ rewrite `\(start\.\.end\)\.all\(\|i\| self\.get\(i\)\)` => `{ let mut vx_all = true; for i in start..end invariant vx_all == (forall|j: int| start <= j < i && start < end ==> self.bit(j)), { if !self.get(i) { vx_all = false; } } vx_all }` ## closure passed to Iterator::all is outside Verus: expressed as the equivalent loop without the short-circuit
+//@ contract
+    ensures r == (forall|j: int| start <= j < end ==> self.bit(j)),   //# all_bits_of_the_range_set [C11]
+//@ end
+
 //@ item sim/elvis-core/src/protocols/ipv4/reassembly/bitvec.rs :: impl BitVec / fn complete id=BitVec.complete
 //@ rewrite `\(0\.\.len\)\.all\(\|i\| self\.get\(i\)\)` => `{ let mut vx_all = true; for i in 0..len invariant vx_all == (forall|j: int| 0 <= j < i ==> self.bit(j)), { if !self.get(i) { vx_all = false; } } vx_all }` ## closure passed to Iterator::all is outside Verus: expressed as the equivalent loop without the short-circuit
 //@ contract
@@ -176,6 +182,195 @@ pub open spec fn blocks_covered(b: BitVec, tdl: int) -> bool {
     forall|j: int| 0 <= j < nblocks(tdl) ==> b.bit(j)
 }
 
+// ---------------------------------------------------------------------------
+// Payload level: the recorded pieces are block-disjoint slices of one datagram `d`
+// ---------------------------------------------------------------------------
+/// first block after the piece
+pub open spec fn pc_end(p: Fragment) -> int { p.offset + nblocks(p.message@.len() as int) }
+
+/// the piece is a non-empty slice of `d` at 8*offset; only a piece that ends the datagram may have a length that is not a multiple of 8
+pub open spec fn pc_ok(p: Fragment, d: Seq<u8>) -> bool {
+    &&& p.message.wf() && 0 < p.message@.len() <= 65535
+    &&& 8 * p.offset + p.message@.len() <= d.len()
+    &&& p.message@ == d.subrange(8 * p.offset as int, 8 * p.offset + p.message@.len())
+    &&& (8 * p.offset + p.message@.len() < d.len() ==> p.message@.len() % 8 == 0)
+}
+
+pub open spec fn pc_disjoint(a: Fragment, b: Fragment) -> bool { pc_end(a) <= b.offset || pc_end(b) <= a.offset }
+
+pub open spec fn covers(s: Seq<Fragment>, k: int) -> bool {
+    exists|i: int| 0 <= i < s.len() && (#[trigger] s[i]).offset <= k < pc_end(s[i])
+}
+
+pub open spec fn pieces_inv(s: Seq<Fragment>, b: BitVec, d: Seq<u8>) -> bool {
+    &&& forall|i: int| 0 <= i < s.len() ==> pc_ok(#[trigger] s[i], d)
+    &&& forall|i: int, j: int| 0 <= i < s.len() && 0 <= j < s.len() && i != j ==> pc_disjoint(#[trigger] s[i], #[trigger] s[j])
+    &&& forall|k: int| #![trigger b.bit(k)] b.bit(k) <==> covers(s, k)
+}
+
+/// concatenation of the pieces in sequence order
+pub open spec fn cat(s: Seq<Fragment>) -> Seq<u8>
+    decreases s.len(),
+{
+    if s.len() == 0 { Seq::empty() } else { s[0].message@ + cat(s.subrange(1, s.len() as int)) }
+}
+
+pub open spec fn by_offset(s: Seq<Fragment>) -> bool {
+    forall|i: int, j: int| 0 <= i < j < s.len() ==> (#[trigger] s[i]).offset <= (#[trigger] s[j]).offset
+}
+
+/// pieces sorted by offset, pairwise block-disjoint, each a slice of d, together covering every block of d,
+/// tile d: the concatenation of s[k..] is d from the byte where piece k starts
+pub proof fn lemma_tiling(s: Seq<Fragment>, d: Seq<u8>, k: int, pos: int)
+    requires
+        by_offset(s), 0 <= k <= s.len(),
+        forall|i: int| 0 <= i < s.len() ==> pc_ok(#[trigger] s[i], d),
+        forall|i: int, j: int| 0 <= i < s.len() && 0 <= j < s.len() && i != j ==> pc_disjoint(#[trigger] s[i], #[trigger] s[j]),
+        forall|b: int| 0 <= b < nblocks(d.len() as int) ==> covers(s, b),
+        // everything before piece k ends where piece k has to start
+        k == 0 || 8 * s[k - 1].offset + s[k - 1].message@.len() == pos,
+        k == 0 ==> pos == 0,
+        forall|i: int| 0 <= i < k ==> pc_end(#[trigger] s[i]) <= nblocks(pos),
+        0 <= pos <= d.len(),
+    ensures
+        cat(s.subrange(k, s.len() as int)) == d.subrange(pos, d.len() as int),
+    decreases s.len() - k,
+{
+    let rest = s.subrange(k, s.len() as int);
+    if k == s.len() {
+        // nothing left: pos must be the end of the datagram, else the block at pos is not covered
+        if pos < d.len() {
+            if k > 0 { assert(pos % 8 == 0); }
+            let b = pos / 8;
+            assert(0 <= b < nblocks(d.len() as int));
+            assert(covers(s, b));
+            let i = choose|i: int| 0 <= i < s.len() && (#[trigger] s[i]).offset <= b < pc_end(s[i]);
+            assert(pc_end(s[i]) <= nblocks(pos));
+            assert(false);
+        }
+        assert(rest =~= Seq::<Fragment>::empty());
+        assert(d.subrange(pos, d.len() as int) =~= Seq::<u8>::empty());
+    } else {
+        let p = s[k];
+        // piece k starts exactly at pos
+        if pos == d.len() {
+            // a piece after the end of the datagram cannot be a non-empty slice of it
+            if k > 0 { assert(pc_disjoint(s[k - 1], p)); assert(s[k - 1].offset <= p.offset); }
+            assert(false);
+        }
+        if k > 0 { assert(pos % 8 == 0); }
+        let b = pos / 8;
+        assert(0 <= b < nblocks(d.len() as int));
+        assert(covers(s, b));
+        let i = choose|i: int| 0 <= i < s.len() && (#[trigger] s[i]).offset <= b < pc_end(s[i]);
+        assert(i >= k) by { if i < k { assert(pc_end(s[i]) <= nblocks(pos)); } }
+        assert(p.offset <= s[i].offset);
+        if k > 0 { assert(pc_disjoint(s[k - 1], p)); assert(s[k - 1].offset <= p.offset); }
+        assert(p.offset == b);
+        let len = p.message@.len() as int;
+        let pos2 = pos + len;
+        assert forall|j: int| 0 <= j < k + 1 implies pc_end(#[trigger] s[j]) <= nblocks(pos2) by {
+            if j < k { assert(pc_end(s[j]) <= nblocks(pos)); }
+        }
+        lemma_tiling(s, d, k + 1, pos2);
+        assert(rest[0] == p);
+        assert(rest.subrange(1, rest.len() as int) =~= s.subrange(k + 1, s.len() as int));
+        assert(d.subrange(pos, d.len() as int) =~= p.message@ + d.subrange(pos2, d.len() as int));
+    }
+}
+
+/// adding a piece that is block-disjoint from all recorded ones keeps the payload invariant, whatever order the heap puts it in
+pub proof fn lemma_pieces_push(s: Seq<Fragment>, t: Seq<Fragment>, item: Fragment, b0: BitVec, b1: BitVec, d: Seq<u8>)
+    requires
+        pieces_inv(s, b0, d), pc_ok(item, d),
+        t.to_multiset() == s.to_multiset().insert(item),
+        forall|i: int| 0 <= i < s.len() ==> pc_disjoint(#[trigger] s[i], item),
+        forall|k: int| #![trigger b1.bit(k)] b1.bit(k) == (b0.bit(k) || (item.offset <= k < pc_end(item))),
+    ensures pieces_inv(t, b1, d),
+{
+    s.to_multiset_ensures();
+    t.to_multiset_ensures();
+    // membership
+    assert forall|y: Fragment| t.contains(y) implies (y == item || s.contains(y)) by {
+        assert(t.to_multiset().count(y) > 0);
+        if y != item { assert(s.to_multiset().count(y) > 0); }
+    }
+    assert forall|y: Fragment| s.contains(y) || y == item implies t.contains(y) by {
+        if y == item { assert(t.to_multiset().count(y) > 0); } else { assert(s.to_multiset().count(y) > 0); assert(t.to_multiset().count(y) > 0); }
+    }
+    // no value occurs twice in s (two equal non-empty pieces would overlap), nor is item one of them
+    assert(s.no_duplicates()) by {
+        assert forall|i: int, j: int| 0 <= i < s.len() && 0 <= j < s.len() && i != j implies s[i] != s[j] by {
+            assert(pc_ok(s[i], d));
+            assert(pc_disjoint(s[i], s[j]));
+        }
+    }
+    s.lemma_multiset_has_no_duplicates();
+    assert(!s.contains(item)) by {
+        if s.contains(item) {
+            let i = choose|i: int| 0 <= i < s.len() && s[i] == item;
+            assert(pc_disjoint(s[i], item));
+        }
+    }
+    assert(s.to_multiset().count(item) == 0);
+    assert forall|y: Fragment| t.to_multiset().count(y) <= 1 by {}
+    t.lemma_multiset_has_no_duplicates_conv();
+    assert(t.no_duplicates());
+    // (1) every piece is a slice of d
+    assert forall|i: int| 0 <= i < t.len() implies pc_ok(#[trigger] t[i], d) by {
+        assert(t.contains(t[i]));
+        if t[i] != item { let k = choose|k: int| 0 <= k < s.len() && s[k] == t[i]; assert(pc_ok(s[k], d)); }
+    }
+    // (2) pairwise disjoint
+    assert forall|i: int, j: int| 0 <= i < t.len() && 0 <= j < t.len() && i != j implies pc_disjoint(#[trigger] t[i], #[trigger] t[j]) by {
+        assert(t[i] != t[j]);
+        assert(t.contains(t[i]) && t.contains(t[j]));
+        if t[i] == item {
+            let k = choose|k: int| 0 <= k < s.len() && s[k] == t[j]; assert(pc_disjoint(s[k], item));
+        } else if t[j] == item {
+            let k = choose|k: int| 0 <= k < s.len() && s[k] == t[i]; assert(pc_disjoint(s[k], item));
+        } else {
+            let k1 = choose|k: int| 0 <= k < s.len() && s[k] == t[i];
+            let k2 = choose|k: int| 0 <= k < s.len() && s[k] == t[j];
+            assert(k1 != k2);
+            assert(pc_disjoint(s[k1], s[k2]));
+        }
+    }
+    // (3) the bitmap is exactly the covered blocks
+    assert forall|k: int| #![trigger b1.bit(k)] b1.bit(k) <==> covers(t, k) by {
+        if covers(t, k) {
+            let i = choose|i: int| 0 <= i < t.len() && (#[trigger] t[i]).offset <= k < pc_end(t[i]);
+            assert(t.contains(t[i]));
+            if t[i] != item {
+                let m = choose|m: int| 0 <= m < s.len() && s[m] == t[i];
+                assert(covers(s, k));
+            }
+        }
+        if b0.bit(k) {
+            assert(covers(s, k));
+            let i = choose|i: int| 0 <= i < s.len() && (#[trigger] s[i]).offset <= k < pc_end(s[i]);
+            assert(t.contains(s[i]));
+            let m = choose|m: int| 0 <= m < t.len() && t[m] == s[i];
+            assert(t[m].offset <= k < pc_end(t[m]));
+        }
+        if item.offset <= k < pc_end(item) {
+            assert(t.contains(item));
+            let m = choose|m: int| 0 <= m < t.len() && t[m] == item;
+            assert(t[m].offset <= k < pc_end(t[m]));
+        }
+    }
+}
+
+/// the max-heap pop order is ascending by fragment offset
+pub proof fn lemma_sorted_by_offset(s: Seq<Fragment>)
+    requires heap_sorted(s),
+    ensures by_offset(s),
+{
+    assert forall|i: int, j: int| 0 <= i < j < s.len() implies (#[trigger] s[i]).offset <= (#[trigger] s[j]).offset by {
+        assert(OrdSpec::cmp_spec(&s[i], &s[j]) != Ordering::Less);
+    }
+}
+
 impl Segment {
     /// representation invariant: whoever marked block 0 also stored the header,
     /// and every recorded piece is a well-formed message
@@ -185,6 +380,13 @@ impl Segment {
         &&& forall|i: int| 0 <= i < heap_seq(self.fragments).len() ==> (#[trigger] heap_seq(self.fragments)[i]).message.wf() && heap_seq(self.fragments)[i].message@.len() <= 65535
         &&& heap_seq(self.fragments).len() <= self.epoch
         &&& self.total_data_length as int + 20 <= 65535
+    }
+    /// payload-level invariant relative to the datagram d being reassembled
+    pub open spec fn pay_inv(&self, d: Seq<u8>) -> bool {
+        &&& pieces_inv(heap_seq(self.fragments), self.fragment_blocks, d)
+        &&& heap_sorted(heap_seq(self.fragments))
+        &&& (self.total_data_length != 0 ==> self.total_data_length == d.len())
+        &&& d.len() + 20 <= 65535 && d.len() > 0
     }
     /// all blocks of a datagram of `tdl` octets have been received
     pub open spec fn covered(&self, tdl: int) -> bool { blocks_covered(self.fragment_blocks, tdl) }
@@ -199,12 +401,26 @@ impl Segment {
 //@ end
 
 //@ item sim/elvis-core/src/protocols/ipv4/reassembly/segment.rs :: impl Segment / fn receive_packet id=Segment.receive_packet
+//@ rewrite `pub fn receive_packet\(` => `#[verifier::spinoff_prover] #[verifier::rlimit(300)] pub fn receive_packet(` ## verifier attributes only
+//@ rewrite `body: Message,\n    \) -> Option` => `body: Message, Ghost(d): Ghost<Seq<u8>>,\n    ) -> Option` ## ghost parameter added (erased at run time): the datagram the fragments of this buffer belong to
 //@ rewrite `Message::new\(vec!\[\]\)` => `Message::new_inner(Chunk::new(Vec::new()))` ## Message::new(impl Into<Chunk>) is the generic wrapper `Self::new_inner(body.into())` with `From<Vec<u8>> for Chunk = Chunk::new`; inlined because generic Into is outside the verified fragment
 //@ contract
     requires
         old(self).wf(), body.wf(), frag_hdr_ok(header, body@),
         old(self).epoch < 65535,
+        // payload level: the buffer holds block-disjoint slices of one datagram d, and the arriving fragment is a slice
+        // of d that is either new (none of its blocks received yet) or an exact repetition of a recorded piece
+        old(self).pay_inv(d),
+        pc_ok(Fragment { message: body, offset: header.fragment_offset }, d),
+        !header.flags.mf() ==> 8 * header.fragment_offset + body@.len() == d.len(),
+        header.flags.mf() ==> 8 * header.fragment_offset + body@.len() < d.len(),
+        (forall|k: int| header.fragment_offset <= k < header.fragment_offset + nblocks(body@.len() as int) ==> !old(self).fragment_blocks.bit(k))
+            || (exists|i: int| 0 <= i < heap_seq(old(self).fragments).len() && (#[trigger] heap_seq(old(self).fragments)[i]).offset == header.fragment_offset
+                    && heap_seq(old(self).fragments)[i].message@.len() == body@.len()),
     ensures
+        // (C11) what is returned is the original payload, byte for byte, whatever the arrival order and repetitions
+        r matches Some(hm) ==> hm.1@ == d,   //# returns_the_original_payload [C11]
+        r is None ==> final(self).pay_inv(d),   //# pieces_stay_disjoint_slices_of_the_datagram [C11]
         final(self).wf(),
         // (9) exactly the blocks FO .. FO + ceil(len/8) are newly marked
         forall|j: int| final(self).fragment_blocks.bit(j) == (old(self).fragment_blocks.bit(j)
@@ -237,8 +453,60 @@ impl Segment {
         }
 //@ before 1 `while let Some(piece) = self.fragments.pop()`
                 let ghost pre = *self;
+                proof { assert(message@ + cat(heap_seq(self.fragments)) =~= d); }
+//@ before 1 `message.concatenate(piece.into_message());`
+                    let ghost h0 = heap_seq(self.fragments);   // after the pop
+                    let ghost m0 = message@;
+//@ after 1 `message.concatenate(piece.into_message());`
+                    proof { assert(message@ + cat(h0) =~= m0 + (piece.message@ + cat(h0))); }
+//@ after 1 `self.fragment_blocks.set_range(`
+        proof {
+            let item = Fragment { message: body, offset: header.fragment_offset };
+            let s0 = heap_seq(old(self).fragments);
+            assert(pc_end(item) == header.fragment_offset + nblocks(body@.len() as int));
+            assert(end_block as int == pc_end(item));
+            if already_received {
+                // every block of the fragment was marked before: nothing was recorded and the bitmap is unchanged
+                assert forall|k: int| #![trigger self.fragment_blocks.bit(k)] self.fragment_blocks.bit(k) == old(self).fragment_blocks.bit(k) by {}
+                assert(heap_seq(self.fragments) == s0);
+                assert forall|k: int| #![trigger self.fragment_blocks.bit(k)] self.fragment_blocks.bit(k) <==> covers(s0, k) by {}
+            } else {
+                // some block of the fragment was not marked: it is not a repetition, hence (precondition) entirely new
+                assert(exists|k: int| first_block <= k < end_block && !old(self).fragment_blocks.bit(k));
+                let k0 = choose|k: int| first_block <= k < end_block && !old(self).fragment_blocks.bit(k);
+                assert forall|i: int| 0 <= i < s0.len() implies !((#[trigger] s0[i]).offset == item.offset && s0[i].message@.len() == body@.len()) by {
+                    if s0[i].offset == item.offset && s0[i].message@.len() == body@.len() {
+                        assert(s0[i].offset <= k0 < pc_end(s0[i]));
+                        assert(covers(s0, k0));
+                    }
+                }
+                assert forall|i: int| 0 <= i < s0.len() implies pc_disjoint(#[trigger] s0[i], item) by {
+                    let q = s0[i];
+                    assert(pc_ok(q, d));
+                    if !pc_disjoint(q, item) {
+                        let k = if q.offset >= item.offset { q.offset as int } else { item.offset as int };
+                        assert(q.offset <= k < pc_end(q) && item.offset <= k < pc_end(item));
+                        assert(covers(s0, k));
+                        assert(old(self).fragment_blocks.bit(k));
+                    }
+                }
+                lemma_pieces_push(s0, heap_seq(self.fragments), item, old(self).fragment_blocks, self.fragment_blocks, d);
+            }
+        }
+//@ before 1 `let mut header = self.header.unwrap();`
+            proof {
+                let sfull = heap_seq(self.fragments);
+                lemma_sorted_by_offset(sfull);
+                assert forall|b: int| 0 <= b < nblocks(d.len() as int) implies covers(sfull, b) by {
+                    assert(self.fragment_blocks.bit(b));
+                }
+                lemma_tiling(sfull, d, 0, 0);
+                assert(sfull.subrange(0, sfull.len() as int) =~= sfull);
+                assert(d.subrange(0, d.len() as int) =~= d);
+            }
 //@ loop 1
                 invariant
+                    message@ + cat(heap_seq(self.fragments)) == d,
                     self.fragment_blocks == pre.fragment_blocks, self.total_data_length == pre.total_data_length,
                     self.header == pre.header, self.epoch == pre.epoch, self.timeout_seconds == pre.timeout_seconds,
                     message.wf(),
@@ -246,6 +514,7 @@ impl Segment {
                     heap_seq(self.fragments).len() <= 65536,
                     message@.len() + 65535 * heap_seq(self.fragments).len() <= 65535 * 65537,
                 ensures
+                    message@ == d,
                     self.fragment_blocks == pre.fragment_blocks, self.total_data_length == pre.total_data_length,
                     self.header == pre.header, self.epoch == pre.epoch, self.timeout_seconds == pre.timeout_seconds,
                     message.wf(),
